@@ -21,6 +21,7 @@ import Hdl21Model.Drv.ExportNames
 import Hdl21Model.Drv.InstBundle
 import Hdl21Model.Drv.ArrayPass
 import Hdl21Model.Drv.NameEnc
+import Hdl21Model.Drv.Orphanage
 open Lean
 
 /-- Line protocol: one JSON object per input line `{"prop": "C03", "op": ..., ...}`,
@@ -52,6 +53,7 @@ def dispatch (j : Json) : Except String Json := do
   | "IB" => Hdl21.Drv.InstBundle.handle op j
   | "AP" => Hdl21.Drv.ArrayPass.handle op j
   | "NE" => Hdl21.Drv.NameEnc.handle op j
+  | "OR" => Hdl21.Drv.Orphanage.handle op j
   | "SEM" => Hdl21.Drv.Sem.handle op j
   | _ => .error s!"unknown prop {prop}"
 
